@@ -1,4 +1,5 @@
 """C11 jobs: big-integer arithmetic is exact (bigint.c, dword.c, foam_i.c)."""
+import os
 
 ASSUMPTIONS = [
     "abstract value V(b) and invariants WF/CANON are restated in spec/bint_spec.h from the property text and bigint.c's header comment (tag bit 0, value = word>>1; sign-magnitude digits radix 2^32); job bint.constants checks the code's own radix and immediate range against them",
@@ -6,11 +7,10 @@ ASSUMPTIONS = [
     "objects of capacity <= NARY digits are whole `struct bint`s with sentinel-filled slack: a store beyond placea is detected through the sentinel (for every sentinel value), a LOAD beyond placea but inside the struct is not detected as a memory error (it would make the value postcondition fail if the value matters)",
     "TimesStep/TimesDouble identities are stated in 64-bit unsigned arithmetic; that (2^32-1)^2 + 2(2^32-1) = 2^64-1 does not wrap is a pencil-and-paper fact, not a solver result",
     "right shifts and bit tests are specified on the magnitude (sign-magnitude, quotient by 2^n truncated toward zero), as the property's rule for quotients; bintBit on a negative number tests |b| (the code's own '!! This should handle negative numbers' is not resolved by the property text)",
-    "bintPlus/bintMinus: real bodies inlined, one job per operand shape x sign case (16 per function), re-entries bounded by --unwindset with recursion unwinding assertions (so the bound is proved, not assumed); these jobs are in the THOROUGH tier only (170-350 s each); the quick tier has the digit-level iintPlus/iintMinus",
+    "bintPlus/bintMinus: the real body of each, one job per operand shape x sign case (16 per function); the calls they make to themselves and each other are bound (definition renamed on every run) to a model of the contract being checked, whose precondition - operand form and BOTH OPERANDS NON-NEGATIVE, the decreases clause - is an obligation at every re-entry; an operand in the immediate representation is a tagged integer cast to a pointer, which the SAT flattening cannot handle (> 43 GB in post-processing): those shapes are discharged by z3; mixed shapes (imm/stored) in the thorough tier only",
     "class B jobs: every operand has at most 3 digits (96 bits), all digit values, signs, lengths and capacities symbolic; nothing is claimed beyond that size",
     "UNDECIDED, not claimed: the arithmetic identities of iintTimes, iintTimesS, iintTimesPlusS, iintDivide, iintDivideS, bintTimes (general path), bintDivide (a = q*b + r, truncation, sign of remainder), bintMod/bintModi, xxTimesDouble/xxDivideDouble/xxModDouble, fiBIntGcd, fiBIntSIPower/BIPower/PowerMod, bintToString/bintIntoString, bintFrString/bintScanFrString/bintRadixScanFrString: 64-bit multiplier/divider equivalences are beyond the SAT back end (probed: 2x2-digit product, DivideDouble re-multiplied, 120-900 s without result)",
     "OBSERVED, NOT DECIDED as a memory-safety question: iintShift evaluates bp[-1] == Placev(b)[-1] (bigint.c:2269, `x0 |= h ? bp[i] >> h : 0` with i == -1) on a left shift of a one-digit operand - an out-of-bounds read of the digit array, undefined behaviour in ISO C; on LE LP64 it loads the zero upper half of placec, so the VALUE is exact: jobs *.left_shift_of_one_digit.platform_layout prove exactness under that layout assumption, *.except_left_shift_of_one_digit prove everything else without it",
-    "FAILING OBLIGATIONS KEPT (genuine, natively reproduced, see replays): bintShiftRem is wrong or unsafe for n == 0, n >= 31 on immediates, n a multiple of 32 or beyond the bit length on stored numbers (jobs bint.bintShiftRem.*)",
     "signed overflow is not checked (framework default): xintStoreI/xintCopyInI/intLength/intBit negate LONG_MIN, which wraps to itself under CBMC and gcc and gives the exact result, but is undefined behaviour in ISO C",
 ]
 
@@ -35,6 +35,8 @@ def UW(n, *sets):
 
 def jobs(tier):
     js = []
+    # jobs known to stay undecided (timeouts on SAT and z3) are kept for the record and scheduled only on request
+    PROBE = os.environ.get("VERIF_PROBE_UNDECIDED") == "1"
 
     def J(name, entry, fns, inputs, cls="P", enforce=(), defs=(), kind="obligation", unwind=None, timeout=300,
           checks=STD, **kw):
@@ -100,10 +102,11 @@ def jobs(tier):
     for m, ins in (("PlusStep", ["a", "b", "kin"]), ("TimesStep", ["a", "b", "c", "kin"]),
                    ("TestGTDouble", ["h1", "l1", "h2", "l2"])):
         J("canary.macro." + m, "h_" + m, [m + " (macro)"], ins, defs=["-DCANARY_" + m], kind="canary")
-    if tier == "thorough":
-        # 64-bit divider/multiplier equivalences: expected to stay undecided (reported as such, never as a violation)
+    if PROBE:
+        # 64-bit divider/multiplier equivalences: stay undecided on SAT and z3 (1200 s); scheduled only with VERIF_PROBE_UNDECIDED=1
         J("macro.DivideDouble_remultiplied", "h_DivideDouble", ["DivideDouble (macro)"], ["nh", "nl", "d"],
-          defs=["-DDIVIDE_REMULTIPLY"], timeout=1200)
+          defs=["-DDIVIDE_REMULTIPLY"], timeout=1200, unwind=["--z3", "--slice-formula"])
+    if tier == "thorough":
         J("macro.DivideDouble_quotient_fits_digit", "h_DivideDouble_fits", ["DivideDouble (macro)"], ["nh", "nl", "d"], timeout=1200)
 
     # ------------------------------------------------------------------------------------------------
@@ -166,25 +169,27 @@ def jobs(tier):
     INL = ["xintStore", "xintStoreI", "xintCopyInI", "bintIsNeg", "bintLength", "bintAlloc", "bintAllocPlaces",
            "xintImmedIfCan", "bintFree", "bintLT", "iintPlus", "iintMinus"]
     SGN = {0: "nonneg_nonneg", 1: "neg_nonneg", 2: "nonneg_neg", 3: "neg_neg"}
+    ADDSUB = {"bigint.c": {"_rename_def": {"bintPlus": "bintPlus__real", "bintMinus": "bintMinus__real"}}}
     for f, me, other in (("bintPlus", "bintPlus", "bintMinus"), ("bintMinus", "bintMinus", "bintPlus")):
         for k, kn in KK:
             for sg in (0, 1, 2, 3):
-                if tier != "thorough":      # 170-350 s each on a loaded machine: thorough tier only
-                    continue
-                re_me = 1 if sg == 3 else 0          # both negative: one re-entry of the same function
-                J("bint.%s.%s.%s" % (f, kn, SGN[sg]), "h_%s_%s_sg%d" % (f, k, sg), [f, other] + INL,
-                  bk("a")[:-1] + bk("b0")[:-1] + ["same"], cls="P" if k == "ii" else "B", bound=None if k == "ii" else B3,
-                  unwind=["--slice-formula"] + UW(6, "uintLength.0:66", "%s:%d" % (me, re_me), "%s:0" % other),
-                  timeout=600 if tier != "thorough" else 1800, mem_gb=10)
-        if tier == "thorough":
-          # sign case a >= 0, b < 0: the bintPlus canary drops the sign of b, which only shows when b is negative
-          J("canary.bint." + f, "h_%s_ss_sg2" % f, [f], bk("a")[:-1] + bk("b0")[:-1] + ["same"], cls="B", bound=B3,
-          unwind=["--slice-formula"] + UW(6, "uintLength.0:66", "%s:0" % me, "%s:0" % other),
-            timeout=1800, mem_gb=10, defs=["-DCANARY_" + f], kind="canary")
+                if tier != "thorough" and (k in ("is", "si") or (k == "ii" and sg != 0)):
+                    continue        # shapes with an immediate: z3, 5-20 min each; quick tier keeps imm/imm in sign case 0 only
+                J("bint.%s.%s.%s" % (f, kn, SGN[sg]), "h_%s_%s_sg%d" % (f, k, sg), [f] + INL,
+                  bk("a")[:-1] + bk("b0")[:-1] + ["same", "m_pa"], cls="P" if k == "ii" else "B", bound=None if k == "ii" else B3,
+                  unwind=["--slice-formula"] + UW(6, "uintLength.0:66") + ([] if k == "ss" else ["--z3"]),
+                  defs=["-DC11_MODEL_ADDSUB"], splice=ADDSUB,
+                  timeout=1200 if tier != "thorough" else 3000, mem_gb=12, checks=STD if k == "ss" else NOPTR,
+                  assumed=["re-entries of bintPlus/bintMinus replaced by a model of the contract being checked (assume-guarantee; "
+                           "the model's precondition incl. 'both operands non-negative' is an obligation at every re-entry, which closes the recursion)"])
+        # sign case a >= 0, b < 0: the bintPlus canary drops the sign of b, which only shows when b is negative
+        J("canary.bint." + f, "h_%s_ss_sg2" % f, [f], bk("a")[:-1] + bk("b0")[:-1] + ["same", "m_pa"], cls="B", bound=B3,
+          unwind=["--slice-formula"] + UW(6, "uintLength.0:66") + ["--stop-on-fail"], splice=ADDSUB,
+          timeout=900, mem_gb=12, defs=["-DC11_MODEL_ADDSUB", "-DV_NO_VREACH", "-DCANARY_" + f], kind="canary")
 
     # products that have a cheap exact formulation
-    if tier == "thorough":
-        J("bint.bintTimes.half_range_immediates", "h_bintTimes_half", ["bintTimes"], ["x", "y"], unwind=UB,
+    if PROBE:       # undecided (SAT and z3, 1500 s)
+        J("bint.bintTimes.half_range_immediates", "h_bintTimes_half", ["bintTimes"], ["x", "y"], unwind=UB + ["--z3"],
           replace=E("bintNew"), timeout=1500)
     for k, kn in K1:
         for u, un in (("0", "0"), ("1", "1"), ("m1", "-1")):
@@ -199,15 +204,23 @@ def jobs(tier):
     # shifts (bintShift: 300 s on a loaded machine, thorough tier; the digit-level iintShift jobs are in the quick tier)
     # quick tier: an immediate operand whose shifted magnitude stays below 2^65 -- the fast path and the
     # immediate/stored boundary of the result (62/63/64 bits)
-    for k, kn in (K1 if tier == "thorough" else [x for x in K1 if x[0] != "i"]):   # immediate operand: > 900 s (tagged-pointer modelling); thorough
+    for k, kn in (K1 if PROBE else [x for x in K1 if x[0] != "i"]):   # immediate operand with a symbolic count: > 5000 s (tagged-pointer modelling); replaced by the per-count jobs below
         J("bint.bintShift.%s.modulo_c_iintShift" % kn, "h_bintShift_" + k, ["bintShift", "bintLength", "xintStore", "bintAlloc", "xintImmedIfCan"],
           bk("b")[:-1] + ["n"], cls="B", unwind=UB, timeout=900 if tier != "thorough" else 5000, mem_gb=10,
           bound=B3 + ", result < 2^127; iintShift replaced by a model of its contract c_iintShift (enforced in iint.iintShift.*)",
           defs=["-DC11_MODEL_IINTSHIFT"], checks=NOPTR if k == "i" else STD,
           splice={"bigint.c": {"_rename_def": {"iintShift": "iintShift__real"}}},
           assumed=["c_iintShift as a model (its contract is enforced on the real iintShift in the iint.iintShift.* jobs)"])
+    # immediate operand at the immediate/stored boundary of the RESULT (62..65 bits), one job per constant shift count:
+    # the fast path's guard, the store of a 63/64-bit result and xintImmedIfCan's verdict
+    for nn in ((1, 32, 61) if tier != "thorough" else range(1, 63)):
+        J("bint.bintShift.imm.result_62_to_65_bits.n%d" % nn, "h_bintShift_i", ["bintShift", "bintLength", "xintStore", "bintAlloc", "xintImmedIfCan"],
+          bk("b")[:-1], cls="P", unwind=UB, timeout=600, mem_gb=10,
+          bound=None, defs=["-DC11_MODEL_IINTSHIFT", "-DBINTSHIFT_N=%d" % nn, "-DBINTSHIFT_RESULT_MINBITS=62", "-DBINTSHIFT_RESULT_BITS=65"],
+          checks=NOPTR, splice={"bigint.c": {"_rename_def": {"iintShift": "iintShift__real"}}},
+          assumed=["c_iintShift as a model (its contract is enforced on the real iintShift in the iint.iintShift.* jobs)"])
     if tier == "thorough":
-        for k, kn in K1:
+        for k, kn in (K1 if PROBE else [x for x in K1 if x[0] != "i"]):   # immediate operand, symbolic count, real iintShift inlined: > 1500 s
             # immediate operand: xintStore gives a one-digit number, whose left shift reads Placev(b)[-1] (see iintShift);
             # allocated objects are word buffers there (-DC11_RAW_ALLOC) so that the read is the platform's actual word
             J("bint.bintShift." + kn, "h_bintShift_" + k, ["bintShift", "iintShift", "bintLength", "xintStore", "bintAlloc", "xintImmedIfCan"],
@@ -216,12 +229,13 @@ def jobs(tier):
               defs=["-DC11_RAW_ALLOC"] if k == "i" else [], checks=NOPTR if k == "i" else STD)
         J("canary.bint.bintShift", "h_bintShift_s", ["bintShift"], bk("b")[:-1] + ["n"], cls="B", bound=B3, unwind=UB,
           defs=["-DCANARY_bintShift"], kind="canary", timeout=1500)
-        # product / quotient: memory safety and result form only (identities undecided)
-        J("iint.iintTimes.memory_safety_and_result_form", "h_iintTimes_wf", ["iintTimes"], st("a") + st("b") + st("r"), cls="B",
-          bound="operands <= 2 digits; the identity r == a*b is NOT decided", unwind=UB, timeout=1500, mem_gb=10)
+    # product: memory safety and result form only (the identity r == a*b is undecided); z3, 20 s
+    J("iint.iintTimes.memory_safety_and_result_form", "h_iintTimes_wf", ["iintTimes"], st("a") + st("b") + st("r"), cls="B",
+      bound="operands <= 2 digits; the identity r == a*b is NOT decided", unwind=UB + ["--z3"], timeout=600, mem_gb=10)
+    if PROBE:       # undecided (SAT and z3, 1500 s)
         J("iint.iintDivide.memory_safety_and_result_form", "h_iintDivide_wf", ["iintDivide", "iintDivideS", "iintTimesS", "bintLT"],
           st("u") + st("v") + st("q") + st("r"), cls="B",
-          bound="dividend <= 3 digits, divisor <= 2 digits; the identity a == q*b + r is NOT decided", unwind=UB, timeout=1500, mem_gb=10)
+          bound="dividend <= 3 digits, divisor <= 2 digits; the identity a == q*b + r is NOT decided", unwind=UB + ["--z3"], timeout=1500, mem_gb=10)
     # bintShiftRem (fiBIntShiftRem passes the user's count): int-typed shifts by n, hence --undefined-shift-check
     SHC = STD + ["--undefined-shift-check"]
     for k, kn in K1:
@@ -260,12 +274,14 @@ def jobs(tier):
     D("canary.dword.xxTestGtDouble", "h_xxTestGtDouble", ["xxTestGtDouble"], ["ah", "al", "bh", "bl"],
       defs=["-DCANARY_xxTestGtDouble"], kind="canary")
     D("canary.dword.xxPlusStep", "h_xxPlusStep", ["xxPlusStep"], ["a", "b", "ki"], defs=["-DCANARY_xxPlusStep"], kind="canary")
-    if tier == "thorough":
-        # multiplier/divider equivalences: expected to stay undecided
-        D("dword.xxTimesDouble.low_word", "h_xxTimesDouble_low", ["xxTimesDouble"], ["a", "b"], timeout=1200)
-        D("dword.xxTimesDouble.half_words", "h_xxTimesDouble_half", ["xxTimesDouble"], ["a", "b"], timeout=1200)
-        D("dword.xxTimesDouble.full", "h_xxTimesDouble", ["xxTimesDouble"], ["a", "b"], timeout=1200)
-        D("dword.xxModDouble.divisor_below_2^32", "h_xxModDouble_small", ["xxModDouble"], ["nh", "nl", "d"], timeout=1200)
+    Z3S = ["--unwind", "4", "--unwinding-assertions", "--z3", "--slice-formula"]
+    # the product of the half words (z3: the two sides are the same bit-vector term after slicing, 4 s)
+    D("dword.xxTimesDouble.half_words", "h_xxTimesDouble_half", ["xxTimesDouble"], ["a", "b"], timeout=300, cbmc=Z3S)
+    if PROBE:
+        # full multiplier/divider equivalences: undecided on SAT and z3 (1200 s)
+        D("dword.xxTimesDouble.low_word", "h_xxTimesDouble_low", ["xxTimesDouble"], ["a", "b"], timeout=1200, cbmc=Z3S)
+        D("dword.xxTimesDouble.full", "h_xxTimesDouble", ["xxTimesDouble"], ["a", "b"], timeout=1200, cbmc=Z3S)
+        D("dword.xxModDouble.divisor_below_2^32", "h_xxModDouble_small", ["xxModDouble"], ["nh", "nl", "d"], timeout=1200, cbmc=Z3S)
 
     # canary of the loop-contract family: with only the code's own assert (Placea(r) >= Placec(a)) as precondition the
     # carry digit of iintPlus has no room (loop bodies are havocked, so the carry is arbitrary): must FAIL
